@@ -105,8 +105,19 @@ def directed_partial_over_shuffle():
             yield "%s ;; run %s ;; rm a 1 ;; run %s ;; rm a 2 ;; rm a 1 ;; run %s ;; rm a 0 ;; run %s" % (cfg, p, p, p, p)
 
 
+def directed_many_shards():
+    """more shards than the cache layer looks up one by one (it batches the lookups beyond 10 per CPU): the shards next to a
+    missing one must still be served from their files"""
+    for n in (170, 330):
+        rows = " ".join("%d:%d" % (i, i) for i in range(n))
+        p = "N0=const %d %s ; N1=mapc N0 inc ; N2=cachepartial N1 a ; OUT N2" % (n, rows)
+        yield "local CH128 ;; run %s ;; rm a 0 ;; run %s ;; rm a 7 ;; rm a 8 ;; rm a %d ;; run %s" % (p, p, n - 1, p)
+
+
 def gen(r, tier):
     for c in directed_partial_over_shuffle():
+        yield c
+    for c in directed_many_shards():
         yield c
     alld = list(directed())
     if tier == "quick":
